@@ -288,6 +288,35 @@ def rule_v_unsafe(ctx):
 AUTO = ("core::marker::Send", "core::marker::Sync")
 
 
+def _param_modes(facts, adt, _depth=0):
+    """{type parameter of adt: True if every occurrence in its fields is behind a shared reference}; parameters that occur in no field are absent"""
+    T = facts.types
+    out = {}
+
+    def walk(tid, depth, shared):
+        t = T[tid]
+        if t.get("k") == "param":
+            out[t["name"]] = out.get(t["name"], True) and shared
+        sub = facts.adts.get(t.get("adt")) if t.get("k") == "adt" else None
+        if sub is not None and depth < 6 and _depth < 4 and sub is not adt:
+            modes = _param_modes(facts, sub, _depth + 1)
+            gens_ = [g for g in sub["generics"] if not g.startswith("'")]
+            for g_, x in zip(gens_, t.get("args", [])):
+                if g_ in modes:
+                    walk(x, depth + 1, shared or modes[g_])
+            return
+        for key_ in ("args", "elems"):
+            for x in t.get(key_, []):
+                if depth < 6:
+                    walk(x, depth + 1, shared)
+        if "inner" in t and depth < 6:
+            walk(t["inner"], depth + 1, shared or (t.get("k") == "ref" and not t.get("mut")))
+    for v in adt["variants"]:
+        for f in v["fields"]:
+            walk(f["ty"], 0, False)
+    return out
+
+
 def check_unsafe_impls(facts, R, report=True):
     """every type parameter of the implementing ADT that occurs in one of its fields is bounded by the auto trait being asserted"""
     T = facts.types
@@ -309,16 +338,28 @@ def check_unsafe_impls(facts, R, report=True):
         # params used in fields
         used = set()
 
-        def walk(tid, depth=0):
+        shared_only = {}
+
+        def walk(tid, depth=0, shared=False):
             t = T[tid]
             if t.get("k") == "param":
                 used.add(t["name"])
+                shared_only[t["name"]] = shared_only.get(t["name"], True) and shared
+            inner_adt = facts.adts.get(t.get("adt")) if t.get("k") == "adt" else None
+            if inner_adt is not None and depth < 8:
+                # a type of the crate: how it holds each of its own parameters decides how the arguments are held
+                modes = _param_modes(facts, inner_adt)
+                gens_ = [g for g in inner_adt["generics"] if not g.startswith("'")]
+                for g_, x in zip(gens_, t.get("args", [])):
+                    if g_ in modes:
+                        walk(x, depth + 1, shared or modes[g_])
+                return
             for key_ in ("args", "elems"):
                 for x in t.get(key_, []):
                     if depth < 8:
-                        walk(x, depth + 1)
+                        walk(x, depth + 1, shared)
             if "inner" in t and depth < 8:
-                walk(t["inner"], depth + 1)
+                walk(t["inner"], depth + 1, shared or (t.get("k") == "ref" and not t.get("mut")))
         for v in adt["variants"]:
             for f in v["fields"]:
                 walk(f["ty"])
@@ -335,7 +376,10 @@ def check_unsafe_impls(facts, R, report=True):
             if a is None or a.get("k") != "param":
                 continue
             nm = a["name"]
-            if not any(p.replace(" ", "") == ("%s:%s" % (nm, tr)).replace(" ", "") for p in im["predicates"]):
+            # data reached only through a shared reference crosses threads as `&X`, which is Send exactly when X is Sync
+            # (`X: Sync` is accepted there as well as the bound hashbrown itself writes, `X: Send`)
+            needs = [tr] + (["core::marker::Sync"] if (tr == "core::marker::Send" and shared_only.get(g)) else [])
+            if not any(p.replace(" ", "") == ("%s:%s" % (nm, need)).replace(" ", "") for p in im["predicates"] for need in needs):
                 missing.append(nm)
         R.inst(impl=key, field_params=sorted(used), bounds=[p for p in im["predicates"] if not p.endswith("Sized")], verdict="ok" if not missing else "VIOLATION")
         if missing:
